@@ -882,6 +882,14 @@ func (x *Exec) Call(st *State, fn *ssa.Function, args []Value, bind []Value, dep
 		fail("call depth exceeded in %s", fn)
 	}
 	name := fn.String()
+	switch name {
+	case repoPath + ".readBinaryStruct":
+		x.Trusted["model:snes.readBinaryStruct (reflection: exported fields, declaration order, little-endian)"]++
+		return []Outcome{{Kind: oReturn, St: st, Ret: x.modelReadBinaryStruct(st, args)}}
+	case repoPath + ".writeBinaryStruct":
+		x.Trusted["model:snes.writeBinaryStruct (reflection: exported fields, declaration order, little-endian)"]++
+		return []Outcome{{Kind: oReturn, St: st, Ret: x.modelWriteBinaryStruct(st, args)}}
+	}
 	if len(fn.Blocks) == 0 || (!x.isRepo(fn) && !inlineStd(name)) {
 		return x.external(st, fn, args, site)
 	}
@@ -2036,6 +2044,15 @@ func (x *Exec) equal(a, b Value) *Term {
 		return Eq(x.refOf(av), x.refOf(b))
 	case IfaceV:
 		switch bv := b.(type) {
+		case Ptr:
+			// interface holding a pointer compared with a pointer of that type
+			if av.Dyn == nil {
+				return BoolC(bv.Obj == nil)
+			}
+			if ap, ok := av.V.(Ptr); ok {
+				return BoolC(ap.Obj == bv.Obj && samePath(ap.Path, bv.Path))
+			}
+			return False()
 		case RefV:
 			return Eq(x.refOf(av), bv.T)
 		case IfaceM:
